@@ -9,8 +9,10 @@ XN == INSTANCE Xsd      \* exact digit-string arithmetic (NumEq, NumLess)
 \* (tag, lexical form), as sophia_sparql does;
 \* FALSE: it is a type error.  SameLitExt = TRUE: a literal of an unrecognised datatype compares equal to itself under
 \* <, >, <=, >= (so "x"^^ex:dt <= "x"^^ex:dt is true), as sophia_sparql does; FALSE: a type error.
+\* IllDtExt = TRUE: an ill-formed xsd:dateTime literal ("yesterday", February 30th) is a value below every dateTime and equal to
+\* every other ill-formed one, as sophia_sparql does; FALSE: comparing it is a type error.
 \* A result is accepted when it is the algebra's answer under some reading of the extension points (Trace_Sparql).
-CONSTANTS LangCmpExt, SameLitExt
+CONSTANTS LangCmpExt, SameLitExt, IllDtExt
 DG == [k |-> "dg"]
 Xsd(s) == <<104,116,116,112,58,47,47,119,119,119,46,119,51,46,111,114,103,47,50,48,48,49,47,88,77,76,83,99,104,101,109,97,35>> \o s
 XsdInteger == Xsd(<<105,110,116,101,103,101,114>>)
@@ -97,8 +99,19 @@ TypeRank(dt) == IF dt = XsdInteger THEN 1 ELSE IF dt = Xsd(<<100,101,99,105,109,
 ValAt(r, t) == IF t <= 2 THEN r.val ELSE IF t = 3 THEN r.f32 ELSE r.f64
 PromotedPair(a, b) == LET ra == NumRow(a) rb == NumRow(b) t == IF TypeRank(a.dt) > TypeRank(b.dt) THEN TypeRank(a.dt) ELSE TypeRank(b.dt)
                       IN <<ValAt(ra, t), ValAt(rb, t)>>
+\* xsd:dateTime (Xsd.tla: the modelled lexical forms and XML Schema's order relation): a value with and one without timezone that are
+\* within 14 hours of each other are neither equal nor ordered - '=' and '<' raise a type error
+XsdDateTime == Xsd(<<100,97,116,101,84,105,109,101>>)
+IsDT(x) == x.k = "lit" /\ x.lang = <<>> /\ x.dt = XsdDateTime /\ XN!IsDateTimeLex(x.lex)
+\* surely no dateTime: does not start like one, or has the shape of the modelled forms with an impossible month, day, minute or offset
+\* (fractions of seconds, 24:00:00, seconds = 60 and years outside the modelled range are left alone: not in the drivers' universe)
+IllDT(x) == x.k = "lit" /\ x.lang = <<>> /\ x.dt = XsdDateTime /\
+            \/ x.lex = <<>> \/ ~(x.lex[1] = 45 \/ (x.lex[1] >= 48 /\ x.lex[1] <= 57))
+            \/ XN!DtShape(x.lex) /\ ~XN!IsDateTimeLex(x.lex) /\ XN!N4(x.lex, 1) >= 1940 /\ XN!N4(x.lex, 1) <= 2060 /\ XN!N2(x.lex, 12) <= 23 /\ XN!N2(x.lex, 18) <= 59
 EqV(a, b) ==    \* RDFterm-equal / value equality on the modelled value classes
   IF IsInt(a) /\ IsInt(b) THEN B(IntVal(a) = IntVal(b))
+  ELSE IF IsDT(a) /\ IsDT(b) THEN (IF XN!DtComparable(a.lex, b.lex) THEN B(XN!DtEqual(a.lex, b.lex)) ELSE Err)
+  ELSE IF IllDtExt /\ (IllDT(a) \/ IsDT(a)) /\ (IllDT(b) \/ IsDT(b)) THEN B(IllDT(a) /\ IllDT(b))
   ELSE IF IsTableNum(a) /\ IsTableNum(b) THEN LET p == PromotedPair(a, b) IN B(XN!NumEq(p[1], p[2]))
   ELSE IF a = b THEN B(TRUE)
   ELSE IF a.k = "lit" /\ b.k = "lit" THEN (IF (IsStr(a) /\ IsStr(b)) \/ (IsBool(a) /\ IsBool(b)) THEN B(FALSE)
@@ -106,9 +119,11 @@ EqV(a, b) ==    \* RDFterm-equal / value equality on the modelled value classes
                                           ELSE Err)
   ELSE B(FALSE)
 LtV(a, b) == IF IsInt(a) /\ IsInt(b) THEN B(IntVal(a) < IntVal(b))
+             ELSE IF IsDT(a) /\ IsDT(b) THEN (IF XN!DtComparable(a.lex, b.lex) THEN B(XN!DtLess(a.lex, b.lex)) ELSE Err)
+             ELSE IF IllDtExt /\ (IllDT(a) \/ IsDT(a)) /\ (IllDT(b) \/ IsDT(b)) THEN B(IllDT(a) /\ IsDT(b))
              ELSE IF IsTableNum(a) /\ IsTableNum(b) THEN LET p == PromotedPair(a, b) IN B(XN!NumLess(p[1], p[2]))
              ELSE IF IsStr(a) /\ IsStr(b) THEN B(StrLess(a.lex, b.lex, 1))
-             ELSE IF SameLitExt /\ a = b /\ a.k = "lit" /\ ~IsInt(a) /\ ~IsStrLit(a) /\ ~IsBool(a) THEN B(FALSE)
+             ELSE IF SameLitExt /\ a = b /\ a.k = "lit" /\ ~IsInt(a) /\ ~IsStrLit(a) /\ ~IsBool(a) /\ ~IsDT(a) /\ ~IllDT(a) THEN B(FALSE)
              ELSE IF LangCmpExt /\ a.k = "lit" /\ b.k = "lit" /\ a.lang # <<>> /\ b.lang # <<>>
                   THEN B(StrLess(a.lang, b.lang, 1) \/ (a.lang = b.lang /\ StrLess(a.lex, b.lex, 1)))
              ELSE IF IsBool(a) /\ IsBool(b) THEN B(a.lex = <<102,97,108,115,101>> /\ b.lex = <<116,114,117,101>>)
